@@ -88,7 +88,7 @@ func cmdCheck(args []string) int {
 	defer cleanupQueries()
 	db := loadContracts(p)
 	loadSec := time.Since(t0).Seconds()
-	timeout := 20 * time.Second
+	timeout := 30 * time.Second
 	needAgree := 1
 	if *tier == "thorough" {
 		timeout = 60 * time.Second
